@@ -951,7 +951,7 @@ Qed.
 (* ---------------------------------------------------------------------------------------- *)
 
 Definition enum_resize_ok_f (s : state) (e : nat) (a : Z) : Prop :=
-  (forall x, In x (erefs s e) -> single_moved s (rel s) x a) /\ unshared s (erefs s e).
+  (forall x, In x (erefs s e) -> single_moved s (rel s) x a) /\ (0 < a -> unshared s (erefs s e)).
 
 Definition ok_op_f (s : state) (o : op) : Prop :=
   match o with
